@@ -1014,6 +1014,17 @@ func nilUseViolation(v ssa.Value, derefs map[*ssa.Function]map[int]bool, seen ma
 		var deref ssa.Instruction
 		switch x := ref.(type) {
 		case *ssa.Phi:
+			// v enters the merge only over edges on which it was tested non-nil (`if x = parse(); x == nil { return nil }`
+			// inside a branch, merged with an explicit nil of the other branch): what is merged is not this nil
+			tested := true
+			for i, e := range x.Edges {
+				if e == v && !edgeNonNil(x.Block().Preds[i], x.Block(), v) {
+					tested = false
+				}
+			}
+			if tested {
+				continue
+			}
 			if bad := nilUseViolation(x, derefs, seen); bad != nil {
 				return bad
 			}
@@ -1060,9 +1071,40 @@ func nilUseViolation(v ssa.Value, derefs map[*ssa.Function]map[int]bool, seen ma
 	return nil
 }
 
+// edgeNonNil: control reaches succ from pred only where v is known to be non-nil.
+func edgeNonNil(pred, succ *ssa.BasicBlock, v ssa.Value) bool {
+	if nonNilGuardedAt(pred, v) {
+		return true
+	}
+	if len(pred.Instrs) == 0 || len(pred.Succs) != 2 || pred.Succs[0] == pred.Succs[1] {
+		return false
+	}
+	ifi, ok := pred.Instrs[len(pred.Instrs)-1].(*ssa.If)
+	if !ok {
+		return false
+	}
+	bo, ok := ifi.Cond.(*ssa.BinOp)
+	if !ok || (bo.Op != token.EQL && bo.Op != token.NEQ) {
+		return false
+	}
+	k, ok := bo.Y.(*ssa.Const)
+	if !ok || !k.IsNil() || !sameOrWraps(bo.X, v) {
+		return false
+	}
+	nonNilEdge := 0
+	if bo.Op == token.EQL {
+		nonNilEdge = 1
+	}
+	return pred.Succs[nonNilEdge] == succ
+}
+
 // nonNilGuarded: use is dominated by the non-nil edge of a test of v.
 func nonNilGuarded(use ssa.Instruction, v ssa.Value) bool {
-	for d := use.Block(); d != nil; d = d.Idom() {
+	return nonNilGuardedAt(use.Block(), v)
+}
+
+func nonNilGuardedAt(at *ssa.BasicBlock, v ssa.Value) bool {
+	for d := at; d != nil; d = d.Idom() {
 		idom := d.Idom()
 		if idom == nil || len(idom.Instrs) == 0 {
 			continue
@@ -1083,7 +1125,7 @@ func nonNilGuarded(use ssa.Instruction, v ssa.Value) bool {
 		if bo.Op == token.EQL {
 			nonNilEdge = 1
 		}
-		if edgeDominates(idom, nonNilEdge, use.Block()) {
+		if edgeDominates(idom, nonNilEdge, at) {
 			return true
 		}
 	}
